@@ -89,6 +89,12 @@ func arithBoundary(c *core.Ctx, id string) {
 //	    instead of re-implementing its formula, so it stays sound if Put is
 //	    changed to drop sizes that are not a class.
 func arithPool(c *core.Ctx, id string, max int) {
+	defer func() {
+		if e := recover(); e != nil {
+			c.Violation("C19:pool-call-panicked", id, fmt.Sprintf("pool.New(%d): Put/Get of the generic pool panicked: %v", max, e),
+				map[string]interface{}{"max": max, "panic": fmt.Sprint(e)})
+		}
+	}()
 	setProcs(1) // one P: Put then Get on the same sync.Pool is deterministic (apart from GC)
 	p := pool.New[*tok](max)
 	g := geomOf(max)
